@@ -12,8 +12,9 @@ EXTENDS Auth, Json, IOUtils, TLC
 CONSTANTS KNOWN
 Rec == ndJsonDeserialize(IOEnv.TRACE)
 VARIABLES l, room, snap, bad, devs, sid,
-          added   \* entries legitimately added on the receiver by earlier candidates (their signer was entitled)
-tvars == <<l, room, snap, bad, devs, sid, added>>
+          added,  \* entries legitimately added on the receiver by earlier candidates (their signer was entitled)
+          kept    \* the room the receiver holds after it legitimately took a re-written entry (it then refuses the original for ever): {} or {room}
+tvars == <<l, room, snap, bad, devs, sid, added, kept>>
 Ev == Rec[l]
 NoRoom == [admins |-> <<>>, groups |-> <<>>]
 Users == {"u1", "u2", "u3"}
@@ -64,11 +65,19 @@ WithoutNewestUser(R) ==
         us == R.groups[i].users
         newest == {j \in DOMAIN us : \A k \in DOMAIN us : us[k].d <= us[j].d}
     IN {[R EXCEPT !.groups[i].users = RemoveAt(us, j)] : j \in newest}
+Rewritten(R) ==
+    LET i == GroupIndex(R, Ev.g)
+        us == R.groups[i].users
+        ok == {j \in DOMAIN us : IsAdmin(R, Ev.by, us[j].d) \/ IsUserAdmin(R.groups[i], Ev.by, us[j].d)}
+    IN {[R EXCEPT !.groups[i].users[j].en = ~@] : j \in ok}
 Allowed(dates) ==
-    IF Ev.kind = "honest" THEN {Expected(Base(room), dates)}
+    IF Ev.kind = "honest" THEN {Expected(Base(room), dates)} \cup {Expected(Base(R), dates) : R \in kept}
     ELSE {Expected(Base(snap), dates), Expected(Base(room), dates)}
          \cup (IF Entitled(Base(room)) THEN {Expected(AddEntry(Base(room), ThisEntry), dates)} ELSE {})
          \cup (IF Ev.kind = "drop_entry" /\ room # NoRoom THEN {Expected(Base(R), dates) : R \in WithoutNewestUser(room)} ELSE {})
+         \* a user entry re-written by a key that was itself entitled to write a user entry of that group at the entry's date: a receiver
+         \* that does not hold the original may take it as that key's entry (nothing it held is altered)
+         \cup (IF Ev.kind = "alter_entry" /\ room # NoRoom THEN {Expected(Base(R), dates) : R \in Rewritten(room)} ELSE {})
 ViewBad(name, path, dates) ==
     IF "err" \in DOMAIN path
     THEN (IF snap = NoRoom /\ Ev.out.verdict # "accepted" THEN {} ELSE {<<name, "error", Ev.kind, Ev.by>>})
@@ -104,10 +113,13 @@ Step == /\ l <= Len(Rec) /\ Ev.ev \notin {"begin", "end"} /\ l' = l + 1
                         /\ Yes(Ev.out.stored) = Expected(AddEntry(Base(room), ThisEntry), ToSet(Ev.dates))
                         /\ Yes(Ev.out.stored) # Expected(Base(room), ToSet(Ev.dates))
                      THEN Append(added, ThisEntry) ELSE added
+        /\ kept' = IF Ev.ev = "forge" /\ Ev.res = "ok" /\ Ev.kind = "alter_entry" /\ "err" \notin DOMAIN Ev.out.stored /\ room # NoRoom
+                       /\ Yes(Ev.out.stored) # Expected(Base(room), ToSet(Ev.dates))
+                    THEN {R \in Rewritten(room) : Expected(Base(R), ToSet(Ev.dates)) = Yes(Ev.out.stored)} ELSE kept
         /\ UNCHANGED sid
-Begin == /\ l <= Len(Rec) /\ Ev.ev = "begin" /\ l' = l + 1 /\ sid' = Ev.sid /\ room' = NoRoom /\ snap' = NoRoom /\ bad' = {} /\ devs' = {} /\ added' = <<>>
-End == /\ l <= Len(Rec) /\ Ev.ev = "end" /\ l' = l + 1 /\ PrintT(<<"DEVS", sid, devs>>) /\ UNCHANGED <<room, snap, bad, devs, sid, added>>
-TInit == l = 1 /\ room = NoRoom /\ snap = NoRoom /\ bad = {} /\ devs = {} /\ sid = 0 /\ added = <<>>
+Begin == /\ l <= Len(Rec) /\ Ev.ev = "begin" /\ l' = l + 1 /\ sid' = Ev.sid /\ room' = NoRoom /\ snap' = NoRoom /\ bad' = {} /\ devs' = {} /\ added' = <<>> /\ kept' = {}
+End == /\ l <= Len(Rec) /\ Ev.ev = "end" /\ l' = l + 1 /\ PrintT(<<"DEVS", sid, devs>>) /\ UNCHANGED <<room, snap, bad, devs, sid, added, kept>>
+TInit == l = 1 /\ room = NoRoom /\ snap = NoRoom /\ bad = {} /\ devs = {} /\ sid = 0 /\ added = <<>> /\ kept = {}
 TNext == Begin \/ Step \/ End
 TSpec == TInit /\ [][TNext]_tvars
 Monitors == \A o \in bad : o[1] # "UNEXPLAINED"
